@@ -258,6 +258,28 @@ func genCase(t *rapid.T) ([]ruleSpec, request) {
 		}
 	}
 
+	// now and then a second rule uses a path expression of the first one with other wildcard names: if heimdall
+	// accepts both, every rule still has to see the captured values under its own names
+	if nrules >= 2 && rapid.IntRange(0, 4).Draw(t, "altNames") == 0 {
+		src := rules[0].Routes[rapid.IntRange(0, len(rules[0].Routes)-1).Draw(t, "altOf")].Expr
+		alt := make(vkit.Expr, len(src))
+		copy(alt, src)
+
+		renamed := false
+
+		for k := range alt {
+			if alt[k].Kind == vkit.Single && alt[k].Name != "*" {
+				alt[k].Name = "q" + alt[k].Name
+				renamed = true
+			}
+		}
+
+		dst := &rules[1]
+		if f, ok := flagOf[alt.Shape()]; renamed && ok && f == dst.BT {
+			dst.Routes = append(dst.Routes, route{Expr: alt})
+		}
+	}
+
 	// the request targets one route; encoded slashes only when every rule that could see them permits them
 	// ("off" with an encoded slash is C08's subject)
 	slashOK := true
@@ -448,6 +470,20 @@ func hostsKnown() bool {
 
 const kfHosts = "C03-hosts-all-must-match"
 
+func hasAltNames(rules []ruleSpec) bool {
+	for _, r := range rules {
+		for _, rt := range r.Routes {
+			for _, s := range rt.Expr {
+				if s.Kind == vkit.Single && strings.HasPrefix(s.Name, "qp") {
+					return true
+				}
+			}
+		}
+	}
+
+	return false
+}
+
 func TestMatchConditionsAndCaptures(t *testing.T) {
 	excludeHosts := vkit.Known(kfHosts, hostsKnown)
 
@@ -465,8 +501,17 @@ func TestMatchConditionsAndCaptures(t *testing.T) {
 		}
 
 		if err = w.Load("src", cfgs...); err != nil {
+			if hasAltNames(rules) && strings.Contains(err.Error(), "wildcard keys differ") {
+				// heimdall refuses two spellings of the wildcard names for one path: nothing to compare then
+				vkit.S.Label("alt_wildcard_names:rejected_on_load")
+
+				return
+			}
+
 			t.Fatalf("valid rule set rejected: %v\nrules: %v", err, rules)
 		}
+
+		vkit.S.LabelIf(hasAltNames(rules), "alt_wildcard_names:accepted_on_load")
 
 		// reference
 		var routes []vkit.RefRoute
